@@ -1,6 +1,6 @@
 (* C06: closure under sequences of conversions (every step that is not an INPUT conversion of the free variable). *)
 From Coq Require Import List ZArith QArith Bool Lia Reals Lra Qreals.
-From Verif Require Import Sexp UnitAlg UnitAlgP Expr Eval ModelSM ConvertVar C06EvalP C06P C06ShapeP C06ReplaceP C06StateP C06MainP C06FoldP.
+From Verif Require Import Sexp UnitAlg UnitAlgP Expr Eval ModelSM ConvertVar C06EvalP C06P C06ShapeP C06ReplaceP C06StateP C06MainP C06FreeP C06FoldP C06FreeMainP.
 Import ListNotations.
 
 (* ---- bookkeeping facts about convert_variable ------------------------------------------------------------------ *)
@@ -61,13 +61,17 @@ Qed.
 
 Lemma step_ok_meaning s v d : step_ok s v d = true ->
   premises_hold s = true /\ (v < length (cvars s))%nat /\
-  (d = DInput -> (forall t, free_var s = Some t -> t <> v) /\
-                 (forall ode, ode_def s v = Some ode -> var_def s v = None)).
+  (d = DInput -> (free_var s = Some v -> is_state s v = false /\ var_def s v = None /\ free_ok s v = true) /\
+                 (free_var s <> Some v -> forall ode, ode_def s v = Some ode -> var_def s v = None)).
 Proof.
   unfold step_ok. intros H. apply andb_true_iff in H as [H Hd]. apply andb_true_iff in H as [Hp Hv]. apply Nat.ltb_lt in Hv.
-  split; [exact Hp|]. split; [exact Hv|]. intros ->. apply andb_true_iff in Hd as [Hfree Hode]. apply negb_true_iff in Hfree. split.
-  - intros t Ht. rewrite Ht in Hfree. apply Nat.eqb_neq. exact Hfree.
-  - intros ode Ho. rewrite Ho in Hode. destruct (q_lhs ode); [discriminate|]. apply andb_true_iff in Hode as [_ Hvd].
+  split; [exact Hp|]. split; [exact Hv|]. intros ->. split.
+  - intros Hf. rewrite Hf, Nat.eqb_refl in Hd. apply andb_true_iff in Hd as [Hd Hfo]. apply andb_true_iff in Hd as [Hs Hvd].
+    apply negb_true_iff in Hs. split; [exact Hs|]. split; [destruct (var_def s v); [discriminate|reflexivity]|exact Hfo].
+  - intros Hf ode Ho.
+    assert (E : match free_var s with Some t => Nat.eqb t v | None => false end = false).
+    { destruct (free_var s) as [t|]; [|reflexivity]. apply Nat.eqb_neq. congruence. }
+    rewrite E, Ho in Hd. destruct (q_lhs ode); [discriminate|]. apply andb_true_iff in Hd as [_ Hvd].
     destruct (var_def s v); [discriminate|reflexivity].
 Qed.
 
@@ -87,7 +91,7 @@ Notation Sat := (Sat fsem psem csem).
    no longer mentions) *)
 Definition Equiv (N : nat) (l l' : list ceq) : Prop :=
   (forall nu dl, Sat nu dl l -> exists nu' dl', Sat nu' dl' l' /\
-     (forall i, (i < N)%nat -> nu' i = nu i) /\ (forall y t, (y < N)%nat -> dl' y t = dl y t)) /\
+     (forall i, (i < N)%nat -> nu' i = nu i) /\ (forall y t, (y < N)%nat -> (t < N)%nat -> dl' y t = dl y t)) /\
   (forall nu dl, Sat nu dl l' -> exists dl0, Sat nu dl0 l).
 
 Lemma Equiv_refl N l : Equiv N l l.
@@ -98,14 +102,14 @@ Proof.
   intros [F1 B1] [F2 B2]. split.
   - intros nu dl H. destruct (F1 nu dl H) as [nu' [dl' [H' [A1 A2]]]]. destruct (F2 nu' dl' H') as [nu'' [dl'' [H'' [C1 C2]]]].
     exists nu'', dl''. split; [exact H''|]. split; [intros i Hi; rewrite C1, A1 by exact Hi; reflexivity|
-                                                  intros y t Hy; rewrite C2, A2 by exact Hy; reflexivity].
+                                                  intros y t Hy Ht; rewrite C2, A2 by assumption; reflexivity].
   - intros nu dl H. destruct (B2 nu dl H) as [dl0 H0]. apply (B1 nu dl0 H0).
 Qed.
 
 Lemma Equiv_weaken N M l l' : (M <= N)%nat -> Equiv N l l' -> Equiv M l l'.
 Proof.
   intros Hle [F B]. split; [|exact B]. intros nu dl H. destruct (F nu dl H) as [nu' [dl' [H' [A1 A2]]]].
-  exists nu', dl'. split; [exact H'|]. split; [intros i Hi; apply A1; lia|intros y t Hy; apply A2; lia].
+  exists nu', dl'. split; [exact H'|]. split; [intros i Hi; apply A1; lia|intros y t Hy Ht; apply A2; lia].
 Qed.
 
 Lemma upd_below nu n x i : (i < n)%nat -> upd nu n x i = nu i.
@@ -126,9 +130,24 @@ Proof.
   assert (Hnv : n <> v) by lia.
   destruct d.
   - (* INPUT *)
-    apply andb_true_iff in Hd as [Hfree Hode]. apply negb_true_iff in Hfree.
+    destruct (match free_var s with Some t => Nat.eqb t v | None => false end) eqn:Hfree.
+    { (* the free variable *)
+      assert (Hfv : free_var s = Some v).
+      { destruct (free_var s) as [t|]; [|discriminate]. apply Nat.eqb_eq in Hfree. congruence. }
+      apply andb_true_iff in Hd as [Hd Hfo]. apply andb_true_iff in Hd as [Hs Hvd]. apply negb_true_iff in Hs.
+      assert (Hvd' : var_def s v = None) by (destruct (var_def s v); [discriminate|reflexivity]).
+      destruct (input_free_conversion fsem psem csem psem_inv s v target mv s' n H Hnv Hfv Hs Hvd' Hfo)
+        as [k [os [Hk [Hyp [Hws [_ Hboth]]]]]].
+      split.
+      - intros nu dl HS. destruct (Hboth nu dl) as [Fw _]. specialize (Fw HS).
+        eexists _, _. split; [exact Fw|]. subst n. split.
+        + intros i Hi. rewrite upd_ws_other by (rewrite Hws; intros Hin; apply in_seq in Hin; lia).
+          rewrite upd_below by lia. reflexivity.
+        + intros y t Hy Ht. rewrite updd_col_other by (left; lia). reflexivity.
+      - intros nu dl HS. destruct (Hboth nu dl) as [_ Bw]. destruct (Bw HS) as [HS0 _]. eexists. exact HS0. }
     assert (Hfree' : forall t, free_var s = Some t -> t <> v).
     { intros t Ht. rewrite Ht in Hfree. apply Nat.eqb_neq. exact Hfree. }
+    rename Hd into Hode.
     destruct (ode_def s v) as [ode|] eqn:Ho.
     + (* a state variable *)
       destruct (q_lhs ode) as [x|x t] eqn:Hl; [discriminate|].
@@ -145,20 +164,20 @@ Proof.
       * intros nu dl HS. destruct (Hboth nu dl) as [Fw _]. specialize (Fw HS).
         eexists _, _. split; [exact Fw|]. subst n. split.
         -- intros i Hi. rewrite !upd_below by lia. reflexivity.
-        -- intros y t0 Hy. rewrite updd_below by lia. reflexivity.
+        -- intros y t0 Hy Ht0. rewrite updd_below by lia. reflexivity.
       * intros nu dl HS. destruct (Hboth nu dl) as [_ Bw]. destruct (Bw HS) as [HS0 _]. eexists. exact HS0.
     + (* computed variable or constant *)
       assert (Hst : is_state s v = false) by (unfold is_state; rewrite Ho; reflexivity).
       destruct (input_plain_conversion fsem psem csem psem_inv s v target mv s' n H Hnv Hst Hfree' Hf0) as [k [Hk Hboth]].
       split.
       * intros nu dl HS. destruct (Hboth nu dl) as [Fw _]. specialize (Fw HS).
-        eexists _, dl. split; [exact Fw|]. subst n. split; [intros i Hi; rewrite upd_below by lia; reflexivity|reflexivity].
+        eexists _, dl. split; [exact Fw|]. subst n. split; [intros i Hi; rewrite upd_below by lia; reflexivity|intros; reflexivity].
       * intros nu dl HS. destruct (Hboth nu dl) as [_ Bw]. destruct (Bw HS) as [HS0 _]. exists dl. exact HS0.
   - (* OUTPUT *)
     destruct (output_conversion fsem psem csem s v target mv s' n H Hnv Hf0) as [k [Hk Hboth]].
     split.
     + intros nu dl HS. destruct (Hboth nu dl) as [Fw _]. specialize (Fw HS).
-      eexists _, dl. split; [exact Fw|]. subst n. split; [intros i Hi; rewrite upd_below by lia; reflexivity|reflexivity].
+      eexists _, dl. split; [exact Fw|]. subst n. split; [intros i Hi; rewrite upd_below by lia; reflexivity|intros; reflexivity].
     + intros nu dl HS. destruct (Hboth nu dl) as [_ Bw]. destruct (Bw HS) as [HS0 _]. exists dl. exact HS0.
 Qed.
 
